@@ -132,6 +132,8 @@ FORCED = [
     # candidate pairs without ever tightening the chosen one, so the pair is printed while its edit is still [0, n]
     ({"name": "bob"}, {"nome": "bob", "d": [1, 2, 3, 4]}), ({"aaa": {}, "x": ""}, {"x": "", "baa": [], "aaaa": {"a": ["aa"]}}),
     ({"ab": 1}, {"ac": 1, "zzzz": [1, 2, 3, 4, 5, 6]}), ({"key": "v", "big": [1, 2, 3, 4, 5]}, {"kez": "v"}),
+    # a boolean next to the float that Python calls equal to it (True == 1.0, False == 0.0), and no int 1 / 0 around
+    ([1.0, True], [1.0, False]), ([True, 1.0], [True, 2.5]), ({"a": 0.0, "b": False}, {"a": 0.0, "b": True}), ([False, 0.0, True, 1.0], [0.0, False, 1.0, True]),
     ("abc", "abd"), ("a", "b"), ("", "a"), ("hello", "help"), ('"', "\\"), ('a"b', 'a"c'), (STRIKE, UPLUS),
     ("x" + STRIKE, "x" + UPLUS + "y"), ("\U0001F600", "\U0001F601"), ("\x00\x1f", "\x00\x7f"), (" -> ", "->"),
     ("~~a~~", "++a++"), ([1, 2, 3], [1, 5]), ([1, 2], [1, 2, 3, 4]), ([], []), ([], [1]), ([1], []), ({}, {}),
